@@ -35,7 +35,15 @@ type StackCase struct {
 	Via      string   `json:"via"` // op | default | none
 	Ctx      bool     `json:"ctx,omitempty"`
 	Callback string   `json:"callback"`
+	// FormToken (oauth2): the token travels as access_token in a form body ("urlencoded" | "multipart") next to a
+	// required form field "note" that the operation declares; the handler receives that field as sent. (r8)
+	FormToken string `json:"form_token,omitempty"`
+	// FormPad: bytes of a further, undeclared form field (an attachment pasted into a text field): the token is found
+	// however long the form is
+	FormPad int `json:"form_pad,omitempty"`
 }
+
+const formNote = "note of the caller; with = and & in it"
 
 type m = map[string]interface{}
 
@@ -61,6 +69,10 @@ func (c StackCase) spec() m {
 	}
 	req := []m{{"scheme": scopes}}
 	op := m{"operationId": "secured", "produces": []string{"application/json"}, "responses": m{"200": m{"description": "ok"}}}
+	if c.FormToken != "" {
+		op["consumes"] = []string{map[string]string{"urlencoded": "application/x-www-form-urlencoded", "multipart": "multipart/form-data"}[c.FormToken]}
+		op["parameters"] = []m{{"name": "note", "in": "formData", "type": "string", "required": true}, {"name": "access_token", "in": "formData", "type": "string"}}
+	}
 	doc := m{"swagger": "2.0", "info": m{"title": "c14", "version": "1"}, "securityDefinitions": m{"scheme": def},
 		"paths": m{"/secured": m{strings.ToLower(c.Method): op}}}
 	if c.Base != "" {
@@ -96,6 +108,7 @@ func CheckStack(c StackCase) *kit.Violation {
 	}
 	s := &seen{}
 	handlerRan := 0
+	gotNote := ""
 	var handler http.Handler
 	if v := kit.Guard("loads.Analyzed/untyped.NewAPI/middleware.NewContext", func() {
 		doc, lerr := loads.Analyzed(json.RawMessage(raw), "")
@@ -137,8 +150,13 @@ func CheckStack(c StackCase) *kit.Violation {
 			})
 		}
 		api.RegisterAuth("scheme", auth)
-		api.RegisterOperation(c.Method, "/secured", runtime.OperationHandlerFunc(func(interface{}) (interface{}, error) {
+		api.RegisterConsumer("application/x-www-form-urlencoded", runtime.DiscardConsumer)
+		api.RegisterConsumer("multipart/form-data", runtime.DiscardConsumer)
+		api.RegisterOperation(c.Method, "/secured", runtime.OperationHandlerFunc(func(data interface{}) (interface{}, error) {
 			handlerRan++
+			if mp, ok := data.(map[string]interface{}); ok {
+				gotNote, _ = mp["note"].(string)
+			}
 			return map[string]interface{}{"ok": true}, nil
 		}))
 		handler = middleware.NewContext(doc, api, nil).RoutesHandler(nil)
@@ -160,6 +178,24 @@ func CheckStack(c StackCase) *kit.Violation {
 		rt.DefaultAuthentication = c.writer()
 	}
 	op.Params = runtime.ClientRequestWriterFunc(func(runtime.ClientRequest, strfmt.Registry) error { return nil })
+	if c.FormToken != "" {
+		op.AuthInfo, rt.DefaultAuthentication = nil, nil
+		op.ConsumesMediaTypes = []string{map[string]string{"urlencoded": "application/x-www-form-urlencoded", "multipart": "multipart/form-data"}[c.FormToken]}
+		op.Params = runtime.ClientRequestWriterFunc(func(req runtime.ClientRequest, _ strfmt.Registry) error {
+			if err := req.SetFormParam("note", formNote); err != nil {
+				return err
+			}
+			if c.FormPad > 0 {
+				if err := req.SetFormParam("attachment", strings.Repeat("p", c.FormPad)); err != nil {
+					return err
+				}
+			}
+			if c.Via == "none" {
+				return nil
+			}
+			return req.SetFormParam("access_token", string(c.Secret))
+		})
+	}
 	code := 0
 	op.Reader = runtime.ClientResponseReaderFunc(func(rs runtime.ClientResponse, _ runtime.Consumer) (interface{}, error) {
 		code = rs.Code()
@@ -169,7 +205,7 @@ func CheckStack(c StackCase) *kit.Violation {
 	if v := kit.Guard("Runtime.Submit -> RoutesHandler", func() { _, serr = rt.Submit(op) }); v != nil {
 		return v
 	}
-	what := fmt.Sprintf("STACK %s base=%q kind=%s name=%q user=%q secret=%q scopes=%q global=%v via=%s ctx=%v callback=%s", c.Method, c.Base, c.Kind, c.Name, c.User, c.Secret, c.Scopes, c.Global, c.Via, c.Ctx, c.Callback)
+	what := fmt.Sprintf("STACK %s base=%q kind=%s name=%q user=%q secret=%q scopes=%q global=%v via=%s ctx=%v callback=%s token-in-form-body=%q", c.Method, c.Base, c.Kind, c.Name, c.User, c.Secret, c.Scopes, c.Global, c.Via, c.Ctx, c.Callback, c.FormToken)
 	if serr != nil {
 		return kit.Failf("%s: Submit returned an error: %v", what, serr)
 	}
@@ -198,6 +234,8 @@ func CheckStack(c StackCase) *kit.Violation {
 	switch {
 	case c.Callback == cbAccept && (handlerRan != 1 || code != http.StatusOK):
 		return kit.Failf("%s: the callback accepted with a principal: want one handler run and status 200, got %d runs, status %d", what, handlerRan, code)
+	case c.Callback == cbAccept && c.FormToken != "" && gotNote != formNote:
+		return kit.Failf("%s: the token travelled in the %s form body; the handler received the form field note=%q, the caller sent %q", what, c.FormToken, gotNote, formNote)
 	case cbErr != nil && (handlerRan != 0 || code/100 == 2):
 		return kit.Failf("%s: the callback rejected: want no handler run and a non-2xx status, got %d runs, status %d", what, handlerRan, code)
 	}
@@ -228,6 +266,12 @@ func GenStack(t *rapid.T) StackCase {
 		c.Secret = kit.BStr(nonEmpty(genSecret(t, "key"), "k"))
 	default:
 		c.Secret = kit.BStr(nonEmpty(headerSafe(genSecret(t, "token")), "t"))
+		if rapid.IntRange(0, 2).Draw(t, "token-in-form-body") == 0 {
+			c.FormToken = rapid.SampledFrom([]string{"urlencoded", "multipart"}).Draw(t, "form-kind")
+			c.Method = rapid.SampledFrom([]string{"POST", "PUT", "PATCH"}).Draw(t, "form-method")
+			c.Secret = kit.BStr(nonEmpty(genSecret(t, "form-token"), "t"))
+			c.FormPad = rapid.SampledFrom([]int{0, 0, 70000, 1 << 20}).Draw(t, "form-pad")
+		}
 		seenScope := map[string]bool{}
 		for _, s := range genScopes(t) {
 			if !seenScope[s] {
@@ -252,6 +296,12 @@ func ClassifyStack(c StackCase) (bool, []string) {
 	}
 	if c.Kind == "oauth2" {
 		l[fmt.Sprintf("scopes=%d", len(c.Scopes))] = true
+	}
+	if c.FormToken != "" {
+		l["token in a "+c.FormToken+" form body next to a declared form field"] = true
+		if c.FormPad > 0 {
+			l["form body beyond 64 KiB"] = true
+		}
 	}
 	nt := c.Via != "none" && (transformed(string(c.Secret)) || transformed(string(c.User)) || len(c.Scopes) > 0)
 	return nt, sorted(l)
